@@ -56,6 +56,10 @@ def gen_mapping(rng):
         for h in range(a, b + 1):
             T.setdefault(h, rng.randint(-50, 50) * 10 + 37 * h)
             m.setdefault(h, []).append((s, float(T[h] + c + (rng.randint(-noise, noise) if noise else 0))))
+    # series ids are identifiers: not necessarily 0..n-1 (pieces dropped upstream leave gaps)
+    if rng.random() < 0.5:
+        ids = sorted(rng.sample(range(0, 70), ns))
+        m = {h: [(ids[s_], t) for s_, t in v] for h, v in m.items()}
     # the (series, time) pairs of a level come in no promised order, nor do the levels
     if rng.random() < 0.6:
         for h in m:
@@ -76,7 +80,8 @@ def run_find_offsets(ctx, n):
         inp = {"function": "fit_offsets.find_offsets", "head_mapping": {str(k): v for k, v in m.items()}}
         payload = [[k, [[s, q2s(Fraction(t))] for s, t in v]] for k, v in m.items()]
         try:
-            ids, offs = fo.find_offsets({k: list(v) for k, v in m.items()})
+            with common.session_logging(ctx.rng, 0.15):
+                ids, offs = fo.find_offsets({k: list(v) for k, v in m.items()})
             got = {int(s): float(o) for s, o in zip(ids, offs)}
             err = None
         except Exception as e:  # noqa
